@@ -1,4 +1,4 @@
-"""C03 — decoding is total: any bytes give a message or an error, never a panic or abort.
+"""C03 — decoding is total: any bytes give a message or an error, never a panic, abort or endless loop (a reply that does not arrive within 15 s is a hang).
 
 Theorems (WowVerif/Thm/C03.lean, specification decoder): decode_total, decMembers_no_growth, iterDec_count,
 iterDecAll_count — the specification decoder answers every byte string, never needs more elements than input bytes.
@@ -62,7 +62,9 @@ def mutations(fr, hdr_len, rng, tier):
         for w in (1, 2, 4):
             if pos + w > n:
                 continue
-            for val in (0, 1, (1 << (8 * w)) - 1, (1 << (8 * w - 1)) - 1, 2):
+            orig = int.from_bytes(fr[pos:pos + w], "little")
+            # … and one more / one fewer than the frame really has (a count, length or decompressed size that is off by one)
+            for val in (0, 1, (1 << (8 * w)) - 1, (1 << (8 * w - 1)) - 1, 2, (orig + 1) % (1 << (8 * w)), (orig - 1) % (1 << (8 * w))):
                 b = bytearray(fr)
                 b[pos:pos + w] = val.to_bytes(w, "little")
                 if bytes(b) != fr:
@@ -190,7 +192,7 @@ def run(tier, seed):
                 fr = frame(t["exp"], t["dir"], o, body)
                 hreq.append(f"dec {t['exp']} {t['dir']} {fr.hex()}")
                 hmeta.append((t["exp"], t["dir"], fr, f"opcode:{o:#x}", "random-frame"))
-    ho = run_parallel(har, hreq, jobs=16, limit_as=4 << 30, timeout=3000)
+    ho = run_parallel(har, hreq, jobs=16, limit_as=4 << 30, timeout=3000, stall=15)
     classes = collections.Counter()
     kinds = collections.Counter()
     worst_alloc = (0, None)
@@ -210,16 +212,19 @@ def run(tier, seed):
             rep.violation(key, f"{lib} {dr} {label}: decoding a {len(b)}-byte frame ({kind}) {what}",
                           {"library": lib, "direction": dr, "seed": label, "fault": kind, "input_hex": b.hex(), "max_single_allocation": alloc, "budget": BUDGET(len(b)),
                            "implementation": h[:300], "replay_cmd": f"echo '{hq[:20000]}' | (ulimit -v 4194304; {har})"})
+        elif h.startswith("abort hang"):
+            rep.violation(f"C03/hang/{mechanism(label, lib, dr)}", f"{lib} {dr} {label}: decoding a {len(b)}-byte frame ({kind}) does not return ({h})",
+                          {"library": lib, "direction": dr, "seed": label, "fault": kind, "input_hex": b.hex(), "implementation": h, "replay_cmd": f"echo '{hq[:20000]}' | timeout 15 {har}"})
         elif h.startswith("abort"):
             loc = h.split()[2] if len(h.split()) > 2 else label
             rep.violation(f"C03/panic/{loc}", f"{lib} {dr} {label}: decoding {len(b)} hostile bytes ({kind}) ends in '{h[:160]}'",
                           {"library": lib, "direction": dr, "seed": label, "fault": kind, "input_hex": b.hex(), "implementation": h[:400], "replay_cmd": f"echo '{hq[:20000]}' | {har}"})
     rep.coverage = {
         "evaluations": len(hreq), "distinct_nontrivial": len(seen) + sum(1 for x in hmeta if x[4] == "random-frame"),
-        "rule": "seeds: one (thorough: four) canonical frame per version-expanded message + every wowm test vector; faults: every prefix, every 1/2/4-byte window := 0,1,2,max,max/2, header size +-, random bytes, random frames per opcode, every string member at 254..300 (thorough ..9000) bytes; distinct = distinct (library, direction, bytes)",
+        "rule": "seeds: one (thorough: four) canonical frame per version-expanded message + every wowm test vector; faults: every prefix, every 1/2/4-byte window := 0,1,2,max,max/2,original+1,original-1, header size +-, random bytes, random frames per opcode, every string member at 254..300 (thorough ..9000) bytes; distinct = distinct (library, direction, bytes)",
         "seeds": len(seeds), "fault_kinds": dict(kinds), "outcome_classes": dict(classes.most_common(12)), "largest_single_allocation": worst_alloc[0], "largest_allocation_request": worst_alloc[1],
         "spec_theorems": dict(po["theorems"], **po_c["theorems"]), "spec_obligations": po["obligations"] + po_c["obligations"], "spec_discharged": po["discharged"] + po_c["discharged"],
-        "reader_tie": tie_cov,
+        "reader_tie": tie_cov, "requests_left_unevaluated_after_hangs": sum(1 for h in ho if h.startswith("skipped")),
         "samples": [{"request": hreq[i][:120], "implementation": ho[i][:120]} for i in (1, len(hreq) // 3, len(hreq) // 2, len(hreq) - 1)],
     }
     rep.assumptions = ["allocator behaviour, stack depth and wall-clock are observed (counting allocator, RLIMIT_AS 4 GiB, run timeout), not proved",
